@@ -11,6 +11,10 @@ NoAllFlagSets == SUBSET (Flags \ {"a"})
 CoreFlagSets == SUBSET {"m", "c", "o"}
 DefaultOnly  == {DefaultFlags}
 AllEnv   == {"Edit", "Touch", "DeleteArt", "Truncate", "StripKey", "Replace", "MakeCsr"}
+WideEnv  == AllEnv \cup {"EditProfile", "Expire"}
+ExpiryFlagSets == SUBSET {"m", "c", "e"}
+NoProfile == {}
+LeafProfile == {"l"}
 AllFault == {"SignFail", "WriteErr", "WriteTorn", "Die"}
 
 \* bounded variant: at most MaxEnv environment actions (history variable kept out of the invariants)
